@@ -220,7 +220,8 @@ func (l *Gpos4_1) encode() []byte {
 			}
 		}
 	}
-	if baseArrayOffset > 0xFFFF || baseCount*markClassCount > (65536-6-2)/2 {
+	if baseArrayOffset > 0xFFFF || baseCount*markClassCount > (65536-6-2)/2 ||
+		markClassCount > 0xFFFF || baseCount > 0xFFFF {
 		// 16-bit offsets; the second bound is the one readGpos4_1 enforces
 		panic("GPOS 4.1 subtable too large")
 	}
